@@ -394,6 +394,19 @@ func (x *exec) field(objType *ast.Definition, obj *univ.Val, fdef *ast.FieldDefi
 
 	// schema directives, outermost first
 	chain := x.directiveChain(fdef)
+	// executable (FIELD) directives written on the first field node wrap the schema directives
+	for _, d := range nodes[0].Directives {
+		def := x.sch.Directives[d.Name]
+		if def == nil || isBuiltinDirective(d.Name) {
+			continue
+		}
+		for _, l := range def.Locations {
+			if l == ast.LocationField {
+				chain = append(chain, x.dirName(def, d))
+				break
+			}
+		}
+	}
 	order := make([]string, len(chain))
 	for i := range chain {
 		if x.opts.DirInnerFirst {
